@@ -210,10 +210,13 @@ def call_cli(path):
             _cat_numbers.main()
         res = {"outcome": "printed", "sig": "printed"}
     except SystemExit as e:
-        lines = [ln for ln in err.getvalue().splitlines() if ln.strip()]
-        ok = e.code == 1 and len(lines) == 1 and "Traceback" not in lines[0]
-        res = {"outcome": "exit" if ok else "bad-exit", "code": e.code, "stderr": err.getvalue()[:300],
-               "sig": f"exit:{e.code}:{len(lines)}"}
+        # a message, not a traceback. (A damaged member name may itself contain \r or \n, so the
+        # message is not required to be a single line; the number of lines is only recorded.)
+        text = err.getvalue()
+        lines = [ln for ln in text.split("\n") if ln.strip()]
+        ok = e.code == 1 and bool(lines) and "Traceback (most recent call last)" not in text
+        res = {"outcome": "exit" if ok else "bad-exit", "code": e.code, "stderr": text[:300],
+               "sig": f"exit:{e.code}:{min(len(lines), 2)}"}
     except _Timeout:
         res = {"outcome": "timeout", "sig": "timeout"}
     except KeyboardInterrupt:
@@ -629,7 +632,7 @@ def eval_case(case, with_cli=False):
                               f"cat-numbers <{case}> ended in a traceback: {c['exc']}: {c['msg']} (innermost container frame {c['frame']})"))
             elif c["outcome"] == "bad-exit":
                 fails.append(({"mechanism": "cat-numbers", "class": cls, "pattern": f"exit={c['code']}", "stage": "cli"},
-                              f"cat-numbers <{case}> exit code {c['code']}, stderr {c['stderr']!r} (expected exit 1 and a one-line message)"))
+                              f"cat-numbers <{case}> exit code {c['code']}, stderr {c['stderr']!r} (expected exit 1 and a message, not a traceback)"))
     finally:
         if cleanup:
             cleanup()
@@ -1045,7 +1048,7 @@ def main():
               any(k.startswith("member|lib:FileFormatError") and "_store_blob" in k for k in run.outcomes))
     run.floor("the empty-store rejection was reached (a container that loads without any object)",
               any("no objects" in k or "ObjectStore.__init__" in k for k in run.outcomes))
-    run.floor(">= 500 cat-numbers runs, with both one-line exits and printed tables", c["cli_runs"] >= 500 and c["cli_exit"] >= 100 and c["cli_printed"] >= 10)
+    run.floor(">= 500 cat-numbers runs, with both message exits and printed tables", c["cli_runs"] >= 500 and c["cli_exit"] >= 100 and c["cli_printed"] >= 10)
     run.floor("no case timed out", c["outcome_timeout"] == 0 and c["cli_timeout"] == 0)
     run.assume("zipfile, zlib, plistlib, python-snappy and protobuf are trusted to raise (not crash the interpreter) on damaged input")
     run.assume("exceptions raised after container loading, while model.py/document.py interpret a container that did load, "
